@@ -420,5 +420,9 @@ def check(eng, res):
     check_growth(eng, res, G)
     res.floor("R-STOP-TEST", sum(1 for o in res.obligations if o.rule == "R-STOP-TEST"), 4)
     res.floor("R-ONE-DRAW", sum(1 for o in res.obligations if o.rule == "R-ONE-DRAW"), 6)
+    from ..fresh import fresh_results
+
+    res.doc("R-FRESH-RESULT", "A-FRESH: what a loop hands on (the finalised molecule) is assigned in the iteration that leaves the loop")
+    fresh_results(eng, res, {"stochastic"})
     res.assumptions += ["rdDescriptors.HeavyAtomMolWt is the heavy-atom mass; draw_mw returns the distribution's sample (C09/C11 wiring)"]
     res.not_decided += ["the numeric masses (RDKit)", "the distribution's values"]
